@@ -14,6 +14,76 @@ LIPS = {'erfc': Fraction(113, 100), 'erf': Fraction(113, 100), 'igamc': Fraction
 EXACT_ARGS = {('igamc', 0)}
 
 
+
+def interval(t, ranges, memo):
+    """interval (lo, hi) as Fractions of a real-valued z3 term; None if unbounded/unsupported"""
+    k = t.get_id()
+    if k in memo:
+        return memo[k]
+    r = _interval(t, ranges, memo)
+    memo[k] = r
+    return r
+
+
+def _imul(a, b):
+    ps = [a[0] * b[0], a[0] * b[1], a[1] * b[0], a[1] * b[1]]
+    return (min(ps), max(ps))
+
+
+def _interval(t, ranges, memo):
+    if z3.is_rational_value(t):
+        f = t.as_fraction()
+        return (f, f)
+    if z3.is_int_value(t):
+        f = Fraction(t.as_long())
+        return (f, f)
+    if not z3.is_app(t):
+        return None
+    kd = t.decl().kind()
+    if kd == z3.Z3_OP_UNINTERPRETED and t.num_args() == 0:
+        return ranges.get(t.get_id())
+    ch = [interval(c, ranges, memo) for c in t.children()] if kd != z3.Z3_OP_ITE else None
+    if kd == z3.Z3_OP_ITE:
+        a = interval(t.arg(1), ranges, memo)
+        b = interval(t.arg(2), ranges, memo)
+        if a is None or b is None:
+            return None
+        return (min(a[0], b[0]), max(a[1], b[1]))
+    if any(c is None for c in ch):
+        return None
+    if kd == z3.Z3_OP_ADD:
+        return (sum(c[0] for c in ch), sum(c[1] for c in ch))
+    if kd == z3.Z3_OP_SUB:
+        lo, hi = ch[0]
+        for c in ch[1:]:
+            lo, hi = lo - c[1], hi - c[0]
+        return (lo, hi)
+    if kd == z3.Z3_OP_UMINUS:
+        return (-ch[0][1], -ch[0][0])
+    if kd == z3.Z3_OP_MUL:
+        r = ch[0]
+        for c in ch[1:]:
+            r = _imul(r, c)
+        return r
+    if kd == z3.Z3_OP_DIV:
+        a, b = ch
+        if b[0] <= 0 <= b[1]:
+            return None
+        return _imul(a, (1 / b[1], 1 / b[0]))
+    if kd == z3.Z3_OP_POWER:
+        if z3.is_rational_value(t.arg(1)) or z3.is_int_value(t.arg(1)):
+            e = t.arg(1).as_fraction()
+            if e.denominator == 1 and e >= 0:
+                r = (Fraction(1), Fraction(1))
+                for _ in range(int(e)):
+                    r = _imul(r, ch[0])
+                if int(e) % 2 == 0:
+                    r = (max(r[0], Fraction(0)), r[1])
+                return r
+        return None
+    return None
+
+
 class Result(object):
     def __init__(self, obl, verdict, detail='', model=None, t=0.0, queries=0):
         self.obl = obl
@@ -230,6 +300,24 @@ class Discharger(object):
             cons.append(rv <= 2 ** 53)
         return cons
 
+    def var_ranges(self, terms, extra):
+        cv = self.ex.fc.cutvars
+        rng = {}
+        for t in terms:
+            for c in self.cuts_in(t):
+                rv, iv = cv[c]
+                if isinstance(iv, GSum):
+                    r = iv.range(True)
+                    if r is not None:
+                        rng[rv.get_id()] = (Fraction(r[0]), Fraction(r[1]))
+        # delta variables |d| <= lim come as pairs of constraints d <= lim, d >= -lim
+        for c in extra:
+            if z3.is_le(c) and z3.is_rational_value(c.arg(1)):
+                v = c.arg(0)
+                lim = c.arg(1).as_fraction()
+                rng[v.get_id()] = (-lim, lim)
+        return rng
+
     def cut_links(self, t):
         cv = self.ex.fc.cutvars
         cons = []
@@ -301,6 +389,17 @@ class Discharger(object):
         if ta2.eq(tb2):
             self.stats['syntactic'] += 1
             return 'unsat', None
+        # fast path: normalise the difference to a sum of monomials and bound it by interval arithmetic
+        if tol != 0:
+            try:
+                diff = z3.simplify(ta2 - tb2, som=True)
+                rng = self.var_ranges([ta2, tb2], extra)
+                iv = interval(diff, rng, {})
+                if iv is not None and max(abs(iv[0]), abs(iv[1])) <= Fraction(tol):
+                    self.stats['interval'] = self.stats.get('interval', 0) + 1
+                    return 'unsat', None
+            except z3.Z3Exception:
+                pass
         if tol == 0:
             neq = [ta2 != tb2]
         else:
